@@ -30,12 +30,12 @@ from ..tlc import MachineryError
 LEVEL = "model_checking"
 AREA = "locals"
 BUGS = ("setattr", "delattr", "release", "push", "pop", "release_stack", "proxy_early", "spawn_fresh",
-        "release_all", "falsy_unbound", "iop_rebind", "mgr_iter", "cleanup_first", "mw_forget", "mw_counter", "cv_lookup", "set_skip_equal")
+        "release_all", "falsy_unbound", "iop_rebind", "mgr_iter", "cleanup_first", "mw_forget", "mw_counter", "cv_lookup", "set_skip_equal", "cvd_default_unbound", "gc_cleanup")
 BUGS_QUICK = ("setattr", "pop", "release", "proxy_early", "falsy_unbound", "iop_rebind", "mgr_iter", "mw_counter",
-              "cv_lookup", "set_skip_equal")
+              "cv_lookup", "set_skip_equal", "cvd_default_unbound", "gc_cleanup")
 MUTATORS = {"set", "del", "release", "push", "pop", "release_stack", "cleanup", "proxy_mutate", "proxy_pop",
             "proxy_clear", "proxy_iadd", "proxy_isub", "proxy_ior", "proxy_imul", "mw", "release_dunder",
-            "release_stack_dunder", "pop_all", "mw_enter", "mw_close", "cv_set"}
+            "release_stack_dunder", "pop_all", "mw_enter", "mw_close", "cv_set", "cvd_set", "cvd_reset", "mw_abandon"}
 RELEASE_PATHS = {"release", "release_stack", "cleanup", "release_dunder", "release_stack_dunder", "mw", "pop_all",
                  "mw_close"}
 
@@ -183,6 +183,48 @@ def equal_rebind_jobs():
     return jobs
 
 
+def cv_default_jobs():
+    """LocalProxy(ContextVar(.., default=obj)): bound to the default where the var was never set
+    (root context, main context, a sibling), to the set value after set(), to the default again
+    after reset(token); next to it the var without default, which is unbound until set."""
+    m = loc.mkop
+    jobs = []
+    kinds = [loc.CVD, loc.CVZ, loc.CVK]
+    for how in (1, 2):
+        reads = lambda c: [m(c, "proxy_read", k=k) for k in kinds]
+        ops = [m(1, "nop")] + [m(1, "mkproxy", k=k, v=how) for k in kinds] + [m(1, "nop")] + reads(1)
+        ops += [m(1, "spawn", child=2), m(2, "cvd_set", k=loc.CVD, b=1), m(2, "cvd_set", k=loc.CVZ, b=9)] + reads(2) + reads(1)
+        ops += [m(2, "spawn", child=3), m(1, "spawn", child=4)] + reads(3) + reads(4)   # 3 inherits, 4 has defaults
+        ops += [m(3, "cvd_set", k=loc.CVD, b=5), m(2, "cvd_reset", k=loc.CVD)] + reads(2) + reads(3)
+        ops += [m(2, "cvd_set", k=loc.CVD, b=18), m(2, "cvd_set", k=loc.CVD, b=17), m(2, "cvd_reset", k=loc.CVD)] + reads(2)
+        ops += [m(2, "cvd_reset", k=loc.CVD), m(2, "cvd_reset", k=loc.CVZ), m(3, "cvd_reset", k=loc.CVD)] + reads(2) + reads(3)
+        # the default object itself is shared by everybody who did not set: a change through the proxy shows everywhere
+        ops += [m(4, "proxy_mutate", k=loc.CVD, v=1), m(1, "cv_set", b=2), m(1, "nop"), m(4, "nop")]
+        jobs += _three_ways(ops, [], loc.CTORS[how % len(loc.CTORS)])
+    return jobs
+
+
+def abandon_jobs():
+    """A response iterable of the manager middleware that is never closed: created in context A,
+    handed to sibling B which drops the last reference and runs gc.collect().  B's (and A's) data
+    must be untouched; later requests on both still release normally."""
+    m = loc.mkop
+    jobs = []
+    for form in ("make", "deco"):
+        for a, b in ((1, 2), (2, 1)):
+            ops = [m(1, "nop"), m(1, "set", n="x", b=1), m(1, "push", b=2), m(1, "mkproxy", k="x"),
+                   m(1, "mkproxy", k=loc.TOP), m(1, "spawn", child=2), m(1, "spawn", child=3),
+                   m(2, "set", n="x", b=4), m(2, "push", b=3), m(3, "set", n="y", b=9),
+                   m(a, "mw_enter", n="y", b=10, v=0, k=form),      # A's request, never closed
+                   m(3, "mw_enter", n="z", b=11, v=0, k=form),      # a third one stays in flight meanwhile
+                   m(b, "mw_abandon", child=a), m(b, "nop"), m(a, "nop"),
+                   m(b, "mw_enter", v=0, k=form), m(a, "mw_abandon", child=b), m(a, "get", n="x"),
+                   m(a, "mw_enter", n="x", b=12, v=0, k=form), m(a, "mw_close", v=1),   # the worker goes on normally
+                   m(3, "mw_close", v=0), m(b, "mw", n="x", b=5, v=0, k=form), m(1, "nop"), m(2, "nop")]
+            jobs += _three_ways(ops, [], loc.CTORS[(a + len(form)) % len(loc.CTORS)])
+    return jobs
+
+
 def refute_bugs(ctx: Ctx, bugs):
     """Non-vacuity of the TLC check: each broken variant of the heap model must violate the contract."""
     def one(b):
@@ -278,6 +320,8 @@ def run(ctx: Ctx):
         "lists it) -- then the previous manager stays in use; results of the middleware call itself are not judged",
         "bindings are by identity: objects that compare equal (two [] / {} / set(), objects with __eq__, True / 1 / 1.0, equal "
         "strings built at run time) are different objects; binding one where an equal one is bound (or inherited) must bind it",
+        "LocalProxy(ContextVar with default) is bound to the default wherever the var is not set (also after reset); "
+        "an unclosed middleware response that is dropped and garbage-collected in another context releases nothing anywhere",
         "a proxy bound to a falsy object is bound: bool(proxy) = bool(object), unbound-ness is judged by RuntimeError / "
         "_get_current_object / repr, never by truthiness; None itself is not stored (LocalStack uses it for 'empty')",
         "iteration order of Local.__iter__ is not specified and not judged (items compared as a set)",
@@ -289,7 +333,7 @@ def run(ctx: Ctx):
     # 1. model checking -------------------------------------------------------------------------
     # (independent TLC runs, started side by side: most of their wall time is JVM start-up)
     w = max(2, ctx.workers // 2)
-    with cf.ThreadPoolExecutor(max_workers=10) as ex:
+    with cf.ThreadPoolExecutor(max_workers=11) as ex:
         futs = [ex.submit(ctx.model_check, AREA, "MCLocals", "MCQ_laws", timeout=600, workers=w),
                 ex.submit(ctx.model_check, AREA, "LocalsImpl", "MCQ_impl", timeout=900, workers=w),
                 ex.submit(ctx.model_check, AREA, "LocalsImpl", "MCQ_iop", timeout=900, workers=w),
@@ -297,6 +341,7 @@ def run(ctx: Ctx):
                 ex.submit(ctx.model_check, AREA, "LocalsImpl", "MCQ_ovl", timeout=900, workers=w),
                 ex.submit(ctx.model_check, AREA, "LocalsImpl", "MCQ_kinds", timeout=900, workers=w),
                 ex.submit(ctx.model_check, AREA, "LocalsImpl", "MCQ_eq", timeout=900, workers=w),
+                ex.submit(ctx.model_check, AREA, "LocalsImpl", "MCQ_cvd", timeout=900, workers=w),
                 ex.submit(refute_bugs, ctx, BUGS_QUICK if q else BUGS),
                 ex.submit(judge_selftest, ctx)]
         for f in futs:
@@ -310,6 +355,7 @@ def run(ctx: Ctx):
         ctx.model_check(AREA, "LocalsImpl", "MCT_rel", timeout=3000)
         ctx.model_check(AREA, "LocalsImpl", "MCT_ovl", timeout=3000)
         ctx.model_check(AREA, "LocalsImpl", "MCT_eq", timeout=3000)
+        ctx.model_check(AREA, "LocalsImpl", "MCT_cvd", timeout=3000)
     ctx.exhaustive = True
     phases["model_checking"] = round(ctx.elapsed() - t0, 1)
     t0 = ctx.elapsed()
@@ -322,6 +368,8 @@ def run(ctx: Ctx):
         exported = list(ex.map(lambda c: ctx.export(AREA, "MCLocals", c, count_states=False, timeout=1200), cfgs))
     jobs += fresh_read_jobs()
     jobs += equal_rebind_jobs()
+    jobs += cv_default_jobs()
+    jobs += abandon_jobs()
     ntour = 0
     for cfg, recs in zip(cfgs, exported):
         for p, made in export_tours(ctx, cfg, recs, rng, maxlen=30 if q else 100):
